@@ -570,11 +570,75 @@ def fam_every_word_in_line(ctx, tc):
                 note="every value between two fixed words: the line renders it as the word alone is rendered")
 
 
+# ---------------------------------------------------------------------------------------------------------------
+# pairs: decoding is a function of the word alone - a decoded word that is still held does not change when any
+# other word is decoded after it (shared tables, memoised code objects)
+
+PAIR_WORDS = [(b1 << 8) | b2 for b1 in range(0x10, 0x20) for b2 in range(0x20, 0x80)] + \
+             [v for v in REPRESENTATIVES if not 0x1020 <= v < 0x2000 or (v & 0xFF) < 0x20]
+
+
+def _sig_or_exc(w):
+  try:
+    return _signature(w) + [get_scc_word_disassembly(w, True)]
+  except Exception as e:  # pylint: disable=broad-except
+    return ["exception", exc_disc(e)]
+
+
+def check_pairs(case, acc):
+  """case: {"first": word, "second": [words] or None (= every pair word)}: `first` is decoded and held while each second word is
+  decoded; after each of them the held word must still show what it showed, and the second word must show what it shows alone."""
+  v = int(case["first"])
+  seconds = case.get("second") or PAIR_WORDS
+  r1 = ref608.classify(v)
+  acc.case(f"first={r1['cls']}", nontrivial=True)
+  with _quiet():
+    try:
+      held = SccWord.from_value(v)
+    except Exception:  # pylint: disable=broad-except
+      return   # totality is the per-word family's clause
+    before = _sig_or_exc(held)
+    keep = []
+    for u in seconds:
+      try:
+        other = SccWord.from_value(u)
+      except Exception:  # pylint: disable=broad-except
+        continue
+      keep.append(other)
+      acc.count("ordered_pairs")
+      after = _sig_or_exc(held)
+      if after != before:
+        r2 = ref608.classify(u)
+        same = "same-code-other-channel" if (r2["stripped"] ^ r1["stripped"]) == 0x0800 else "same-word" if r2["stripped"] == r1["stripped"] else "other"
+        acc.violation("C17.function-of-word", f"held={r1['cls']},decoded={r2['cls']},{same}", {"first": v, "second": [u]},
+                      observed=after, expected=before, note=f"word {v:#06x}, decoded and still held, reads differently after {u:#06x} was decoded")
+        return
+    # the words decoded while others were held read as they do alone (a fresh decode of the same value)
+    for other in keep[::97]:
+      try:
+        alone = _sig_or_exc(SccWord.from_value(other.value))
+      except Exception:  # pylint: disable=broad-except
+        continue
+      if _sig_or_exc(other) != alone:
+        acc.violation("C17.function-of-word", f"held={r1['cls']},later-word-changed", {"first": v, "second": [other.value]},
+                      observed=_sig_or_exc(other), expected=alone)
+        return
+
+
+def fam_pairs():
+  def decode(i):
+    return {"first": PAIR_WORDS[i], "second": None}
+
+  return Family("held-word x every control-range word", len(PAIR_WORDS), decode, check_pairs, timeout=60.0, chunk=16,
+                note=f"every ordered pair over the {len(PAIR_WORDS)} pair words (all 16 x 96 control-range values and the other representatives): "
+                     "the first word is held while the second is decoded")
+
+
 def plan(tier, seed):
   if tier == "thorough":
-    return [fam_words(), fam_lines(4, TIME_CODES[0]), fam_lines(3, TIME_CODES[1])] + \
+    return [fam_words(), fam_pairs(), fam_lines(4, TIME_CODES[0]), fam_lines(3, TIME_CODES[1])] + \
            [fam_every_word_in_line(c, TIME_CODES[i % 2]) for i, c in enumerate(CONTEXTS)]
-  return [fam_words(), fam_lines(3, TIME_CODES[seed % 2]), fam_every_word_in_line(CONTEXTS[seed % len(CONTEXTS)], TIME_CODES[(seed + 1) % 2])]
+  return [fam_words(), fam_pairs(), fam_lines(3, TIME_CODES[seed % 2]), fam_every_word_in_line(CONTEXTS[seed % len(CONTEXTS)], TIME_CODES[(seed + 1) % 2])]
 
 
 # ---------------------------------------------------------------------------------------------------------------
